@@ -71,7 +71,8 @@ STATEMENT_FAULTS: typing.Dict[str, typing.Tuple[typing.List[str], int]] = {
     "type:undefined-in-array": (["ns.Nope.2.3[<=2] missing"], 0),
 }
 ATTRIBUTE_DEFERRED = {"attribute:reserved-name", "attribute:reserved-name-const", "attribute:constant-out-of-range", "attribute:constant-not-integer", "attribute:named-void"}
-DEFINITION_FAULTS = ["definition:missing-sealed", "definition:duplicate-names", "definition:union-arity"]
+DEFINITION_FAULTS = ["definition:missing-sealed", "definition:duplicate-names", "definition:union-arity", "definition:extent-too-small", "definition:extent-unaligned"]
+EXTENT_FAULTS = {"definition:extent-too-small": "@extent 8", "definition:extent-unaligned": "@extent 1234567"}
 
 
 def _neutral() -> st.SearchStrategy:
@@ -121,11 +122,27 @@ def build_files(case: typing.Any) -> typing.Tuple[typing.Dict[str, str], typing.
         if fi == 0 and spec.get("split") is not None and cat not in ("marker:second", "definition:union-arity", "definition:missing-sealed") and cat != "directive:union-after-attribute":
             split_at = spec["split"] % (len(body) + 1)
             seal_at = max(seal_at, split_at)
+        # serialization mode of each section: @sealed somewhere, or @extent after the section's last attribute.  An extent fault
+        # makes the section that holds the fault position delimited with a bad extent; the *other* section of a service may well
+        # carry an @extent of its own (a valid one).
+        modes = list(spec.get("modes", ["sealed", "sealed"]))
+        if cat in ("marker:second", "definition:missing-sealed"):
+            modes = ["sealed", "sealed"]
+        mode_lines = ["@extent %d" % (80000 * (len(names) - fi)) if m == "extent" else "@sealed" for m in modes]  # room for the nested ones
+        mode_kinds = ["stmt", "stmt"]
+        if cat in EXTENT_FAULTS:
+            faulty_section = 1 if (split_at is not None and fault_at >= split_at) else 0
+            mode_lines[faulty_section] = EXTENT_FAULTS[cat]
+            mode_kinds[faulty_section] = "participant"
+        last_section = 1 if split_at is not None else 0
         for i in range(len(body) + 1):
             if split_at is not None and i == split_at:
-                lines.append("@sealed")
-                kinds.append("stmt")
+                lines.append(mode_lines[0])
+                kinds.append(mode_kinds[0])
                 lines.append("---")
+                kinds.append("stmt")
+            if i == fault_at and cat in EXTENT_FAULTS:
+                lines.append("uint64 longer_than_the_extent")
                 kinds.append("stmt")
             if i == fault_at and cat in STATEMENT_FAULTS:
                 flines, off = STATEMENT_FAULTS[cat]
@@ -148,7 +165,7 @@ def build_files(case: typing.Any) -> typing.Tuple[typing.Dict[str, str], typing.
             if i == ref_at and fi + 1 < len(names) and not union_arity:
                 lines.append("%s dep_field" % names[fi + 1][: -len(".dsdl")])
                 kinds.append("stmt")
-            if i == seal_at and cat != "definition:missing-sealed" and not (cat == "marker:second"):
+            if i == seal_at and cat != "definition:missing-sealed" and not (cat == "marker:second") and mode_lines[last_section] == "@sealed":
                 lines.append("@sealed")
                 kinds.append("stmt")
             if i < len(body):
@@ -171,6 +188,8 @@ def build_files(case: typing.Any) -> typing.Tuple[typing.Dict[str, str], typing.
                     kinds.append("stmt")
                 elif b.startswith("@"):
                     kinds.append("stmt")
+                    if b.split("#")[0].strip() == "@print":
+                        prints.append((fn, len(lines) + 1, ""))  # a directive without an expression prints the empty string
                 elif b.strip().startswith("#"):
                     kinds.append("comment")
                 elif b == "":
@@ -184,6 +203,9 @@ def build_files(case: typing.Any) -> typing.Tuple[typing.Dict[str, str], typing.
         if cat == "marker:second":
             lines.append("@sealed")
             kinds.append("stmt")
+        if mode_lines[last_section] != "@sealed":
+            lines.append(mode_lines[last_section])  # @extent goes after the last attribute of its section
+            kinds.append(mode_kinds[last_section])
         eol = "\r\n" if spec["crlf"] else "\n"
         texts[fn] = eol.join(lines) + (eol if spec["final_newline"] else "")
         if is_fault_file:
@@ -195,7 +217,7 @@ def build_files(case: typing.Any) -> typing.Tuple[typing.Dict[str, str], typing.
                 expect = {"file": fn, "cat": cat, "line": line, "statement": True, "kinds_before": sorted(before),
                           "followed_by_comment": bool(after) and after[0] == "comment"}
             else:
-                participants = [i + 1 for i, k in enumerate(kinds) if k in ("participant", "unionfield")] + ([1] if union_arity else [])
+                participants = [i + 1 for i, k in enumerate(kinds) if k in ("participant", "unionfield")] + ([spec.get("lead", 0) + 1] if union_arity else [])
                 expect = {"file": fn, "cat": cat, "lines": sorted(set(participants)), "statement": False, "kinds_before": [], "followed_by_comment": False}
     return texts, expect, prints
 
@@ -265,6 +287,18 @@ def check_prints(case: typing.Any, ctx: Ctx) -> Info:
 
         res, _ = guarded(pydsdl.read_files, [os.path.join(root, "T.1.0.dsdl")], [root], print_output_handler=handler, what="read_files")
         where = "\n".join("--- %s\n%s" % (fn, tx) for fn, tx in texts.items())
+        # directives without an expression print the empty string: they cannot be told apart by their text, so their lines are
+        # compared as multisets first and their files afterwards
+        bare_got = sorted(g for g in got if g[2] == "")
+        bare_want = sorted(p for p in prints if p[2] == "")
+        if sorted(g[1] for g in bare_got) != sorted(w[1] for w in bare_want):
+            fewer = len(bare_got) < len(bare_want)
+            more = len(bare_got) > len(bare_want)
+            raise Violation("print-lost:bare" if fewer else "print-duplicated:bare" if more else "print-line:bare", bare_want, bare_got, where)
+        if bare_got != bare_want:
+            in_dep_bare = any(w[0] != "T.1.0.dsdl" for w in bare_want)
+            raise Violation("print-path" + (":dependency" if in_dep_bare else ""), bare_want, bare_got, where)
+        prints = [p for p in prints if p[2] != ""]
         numbered = sorted(g for g in got if g[2] != "")
         want = sorted(prints)
         if numbered != want:
@@ -303,6 +337,7 @@ def _file_spec() -> st.SearchStrategy:
     return st.fixed_dictionaries(
         {
             "neutral": st.lists(_neutral(), max_size=8),
+            "modes": st.lists(st.sampled_from(["sealed", "sealed", "extent"]), min_size=2, max_size=2),
             "lead": st.sampled_from([0, 0, 0, 3, 9, 10, 98, 99, 120]),
             "split": st.one_of(st.none(), st.none(), st.integers(0, 20)),
             "ref_pos": st.integers(0, 20),
